@@ -508,4 +508,643 @@ theorem run_inv (T : Table) (hT : TimerOk T) (ls : List FLabel) (f f' : FSys) (o
         obtain ⟨rfl, _⟩ := h
         exact ih f1 o2 (step_inv T hT f f1 l o1 hinv h1) h2
 
+/-! ### the abstraction: which atomic state a statement-grained state stands for
+
+The atomic `read r` / `readEnd` step is taken when the main goroutine has bumped the generation (from
+then on no callback of an older ESC can act; the mutex is held until `anywhere` has run); the atomic
+`breakClose` at the bump after the loop; the atomic `cbRun` at the callback's `emit` (up to date) or at
+its failed check (out of date); `timerExpire` at `expire`.  All other statements are stuttering steps.
+`pend` is what the atomic system has emitted ahead of the statements. -/
+
+def absPc (T : Table) (f : FSys) : Pc :=
+  match f.mpc with
+  | .atSelect => .atSelect
+  | .inRead | .readDone _ | .stopped _ | .locked _ => .inRead
+  | .bumped i => if stops T f.ps i then .done else .atSelect
+  | .stepped stop => if stop then .done else .atSelect
+  | .fin st v => if v then .done else (match st with | .stop | .lock | .bump => .atSelect | _ => .done)
+  | .done => .done
+
+def absPs (T : Table) (f : FSys) : PState :=
+  match f.mpc with
+  | .bumped i => (VaxisModel.Model.Parser.step T f.ps i).st
+  | _ => if 0 < nMid f.cbs then timerReset true f.ps else f.ps
+
+def pend (T : Table) (f : FSys) : List Seq :=
+  match f.mpc with
+  | .bumped i => (VaxisModel.Model.Parser.step T f.ps i).out ++ (if stops T f.ps i then [.eof] else [])
+  | .stepped true => [.eof]
+  | .fin .stop true | .fin .lock true | .fin .bump true | .fin .unlock _ | .fin .emit _ => [.eof]
+  | _ => []
+
+/-- The atomic system's `armed` flag must be up where the timer is (or is about to be) pending; it may
+    also still be up after a `Stop()` (the atomic system has no separate Stop). -/
+def needArmed (T : Table) (f : FSys) : Bool :=
+  f.armed.isSome || (match f.mpc with | .bumped i => arms T i | _ => false)
+
+def abs (T : Table) (f : FSys) (b : Bool) : Sys :=
+  { ps := absPs T f, pc := absPc T f, armed := b, closeReq := f.closeReq,
+    chanClosed := decide (absPc T f = .done), fresh := decide (0 < nFresh f.escGen f.cbs),
+    stale := nStale f.escGen f.cbs }
+
+/-- One statement is matched by atomic steps `ls` (none or one) with the same output, up to `pend`. -/
+def Sim (T : Table) (f f' : FSys) (b : Bool) (o : List Seq) : Prop :=
+  ∃ ls b' o', Sys.run T Cfg.fixed (abs T f b) ls = some (abs T f' b', o') ∧
+    (needArmed T f' = true → b' = true) ∧ pend T f ++ o' = o ++ pend T f'
+
+theorem sim_stutter (T : Table) (f f' : FSys) (b : Bool) (o : List Seq)
+    (h1 : abs T f' b = abs T f b) (h2 : needArmed T f' = true → b = true) (h3 : pend T f = o ++ pend T f') :
+    Sim T f f' b o :=
+  ⟨[], b, [], by simp [Sys.run, h1], h2, by simpa using h3⟩
+
+theorem sim_one (T : Table) (f f' : FSys) (b : Bool) (o : List Seq) (l : Label) (b' : Bool) (o' : List Seq)
+    (h1 : Sys.step T Cfg.fixed (abs T f b) l = some (abs T f' b', o'))
+    (h2 : needArmed T f' = true → b' = true) (h3 : pend T f ++ o' = o ++ pend T f') :
+    Sim T f f' b o :=
+  ⟨[l], b', o', by simp [Sys.run, h1], h2, h3⟩
+
+theorem nMid_le_nCrit (l : Cbs) : nMid l ≤ nCrit l := by
+  apply List.countP_mono_left
+  intro c _ h
+  cases hc : c.2 <;> simp_all [mid, crit]
+
+theorem main_no_mid {f : FSys} (hinv : FInv f) (h : holdsMain f.mpc = true) : nMid f.cbs = 0 := by
+  have := main_no_crit hinv h; have := nMid_le_nCrit f.cbs; omega
+
+theorem nStale_cons (e g : Nat) (pc : CbPc) (l : Cbs) :
+    nStale e ((g, pc) :: l) = nStale e l + (!decide (g = e) && pre2 pc).toNat := by
+  simp only [nStale, List.countP_cons]; cases (!decide (g = e) && pre2 pc) <;> simp
+
+theorem nFresh_cons (e g : Nat) (pc : CbPc) (l : Cbs) :
+    nFresh e ((g, pc) :: l) = nFresh e l + (decide (g = e) && pre3 pc).toNat := by
+  simp only [nFresh, List.countP_cons]; cases (decide (g = e) && pre3 pc) <;> simp
+
+/-- Bumping the generation outdates the started callbacks (none is inside: the mutex is held). -/
+theorem outdate_count (e : Nat) (l : Cbs) (h1 : ∀ c ∈ l, c.1 ≤ e) (h2 : ∀ c ∈ l, crit c.2 = false) :
+    nStale (e + 1) l = nStale e l + nFresh e l ∧ nFresh (e + 1) l = 0 := by
+  induction l with
+  | nil => simp [nStale, nFresh]
+  | cons c l ih =>
+    have ih' := ih (fun c hc => h1 c (List.mem_cons_of_mem _ hc)) (fun c hc => h2 c (List.mem_cons_of_mem _ hc))
+    obtain ⟨g, pc⟩ := c
+    have hg : g ≤ e := h1 (g, pc) List.mem_cons_self
+    have hc : crit pc = false := h2 (g, pc) List.mem_cons_self
+    have hne : g ≠ e + 1 := by omega
+    rw [nStale_cons, nStale_cons, nFresh_cons, nFresh_cons]
+    cases pc <;> simp [crit] at hc <;> simp [pre2, pre3, hne] <;> (try (by_cases hge : g = e <;> simp [hge])) <;> omega
+
+/-- The loop was left through `<-p.close` only if `Close()` had been called. -/
+def CInv (f : FSys) : Prop := ∀ st, f.mpc = .fin st false → f.closeReq = true
+
+theorem CInv_init : CInv FSys.init := by intro st h; cases h
+
+theorem step_CInv (T : Table) (f f' : FSys) (l : FLabel) (o : List Seq) (hinv : CInv f)
+    (h : FSys.step T f l = some (f', o)) : CInv f' := by
+  cases l with
+  | closeSig =>
+    simp only [FSys.step, Option.some.injEq, Prod.mk.injEq] at h; obtain ⟨rfl, _⟩ := h
+    intro st _; rfl
+  | readRet i =>
+    simp only [FSys.step] at h
+    split at h
+    · simp only [Option.some.injEq, Prod.mk.injEq] at h; obtain ⟨rfl, _⟩ := h
+      intro st hst; cases hst
+    · cases h
+  | main =>
+    simp only [FSys.step] at h
+    unfold mainStep at h
+    split at h
+    · split at h
+      · rename_i hc
+        simp only [Option.some.injEq, Prod.mk.injEq] at h; obtain ⟨rfl, _⟩ := h
+        intro st _; exact hc
+      · simp only [Option.some.injEq, Prod.mk.injEq] at h; obtain ⟨rfl, _⟩ := h
+        intro st hst; cases hst
+    · cases h
+    · simp only [Option.some.injEq, Prod.mk.injEq] at h; obtain ⟨rfl, _⟩ := h
+      intro st hst; cases hst
+    · split at h
+      · simp only [Option.some.injEq, Prod.mk.injEq] at h; obtain ⟨rfl, _⟩ := h
+        intro st hst; cases hst
+      · cases h
+    · simp only [Option.some.injEq, Prod.mk.injEq] at h; obtain ⟨rfl, _⟩ := h
+      intro st hst; cases hst
+    · simp only [Option.some.injEq, Prod.mk.injEq] at h; obtain ⟨rfl, _⟩ := h
+      intro st hst; cases hst
+    · rename_i stop hpc
+      simp only [Option.some.injEq, Prod.mk.injEq] at h; obtain ⟨rfl, _⟩ := h
+      intro st hst; cases stop <;> simp at hst
+    · rename_i v hpc
+      simp only [Option.some.injEq, Prod.mk.injEq] at h; obtain ⟨rfl, _⟩ := h
+      intro st hst; simp only [MPc.fin.injEq] at hst; obtain ⟨_, rfl⟩ := hst; exact hinv _ hpc
+    · rename_i v hpc
+      split at h
+      · simp only [Option.some.injEq, Prod.mk.injEq] at h; obtain ⟨rfl, _⟩ := h
+        intro st hst; simp only [MPc.fin.injEq] at hst; obtain ⟨_, rfl⟩ := hst; exact hinv _ hpc
+      · cases h
+    · rename_i v hpc
+      simp only [Option.some.injEq, Prod.mk.injEq] at h; obtain ⟨rfl, _⟩ := h
+      intro st hst; simp only [MPc.fin.injEq] at hst; obtain ⟨_, rfl⟩ := hst; exact hinv _ hpc
+    · rename_i v hpc
+      simp only [Option.some.injEq, Prod.mk.injEq] at h; obtain ⟨rfl, _⟩ := h
+      intro st hst; simp only [MPc.fin.injEq] at hst; obtain ⟨_, rfl⟩ := hst; exact hinv _ hpc
+    · rename_i v hpc
+      simp only [Option.some.injEq, Prod.mk.injEq] at h; obtain ⟨rfl, _⟩ := h
+      intro st hst; simp only [MPc.fin.injEq] at hst; obtain ⟨_, rfl⟩ := hst; exact hinv _ hpc
+    · simp only [Option.some.injEq, Prod.mk.injEq] at h; obtain ⟨rfl, _⟩ := h
+      intro st hst; cases hst
+    · cases h
+  | expire =>
+    simp only [FSys.step] at h
+    split at h
+    · simp only [Option.some.injEq, Prod.mk.injEq] at h; obtain ⟨rfl, _⟩ := h
+      exact hinv
+    · cases h
+  | cb i =>
+    simp only [FSys.step] at h
+    unfold cbStep at h
+    split at h
+    · cases h
+    · rename_i g pc hi
+      have key : f'.mpc = f.mpc ∧ f'.closeReq = f.closeReq := by
+        cases pc <;> simp only at h
+        case started =>
+          split at h
+          · simp only [Option.some.injEq, Prod.mk.injEq] at h; obtain ⟨rfl, _⟩ := h; exact ⟨rfl, rfl⟩
+          · cases h
+        case gone => cases h
+        all_goals (simp only [Option.some.injEq, Prod.mk.injEq] at h; obtain ⟨rfl, _⟩ := h; exact ⟨rfl, rfl⟩)
+      intro st hst
+      rw [key.1] at hst; rw [key.2]; exact hinv st hst
+
+theorem sim_select (T : Table) (f f' : FSys) (o : List Seq) (b : Bool) (hb : needArmed T f = true → b = true)
+    (hpc : f.mpc = .atSelect) (h : mainStep T f = some (f', o)) : Sim T f f' b o := by
+  simp only [mainStep, hpc] at h
+  have hb' : f.armed.isSome = true → b = true := fun h => hb (by simp [needArmed, h])
+  split at h
+  · simp only [Option.some.injEq, Prod.mk.injEq] at h; obtain ⟨rfl, rfl⟩ := h
+    apply sim_stutter
+    · simp [abs, absPs, absPc, hpc]
+    · simpa [needArmed] using hb'
+    · simp [pend, hpc]
+  · rename_i hc
+    simp only [Option.some.injEq, Prod.mk.injEq] at h; obtain ⟨rfl, rfl⟩ := h
+    apply sim_one T f _ b [] .enterRead b []
+    · simp [Sys.step, abs, absPs, absPc, hpc, hc]
+    · simpa [needArmed] using hb'
+    · simp [pend, hpc]
+
+/-- Stop, Lock, Unlock, emit EOF, close: the atomic system does not move. -/
+theorem sim_stop (T : Table) (f f' : FSys) (o : List Seq) (b : Bool) (i : Inp)
+    (hpc : f.mpc = .readDone i) (h : mainStep T f = some (f', o)) : Sim T f f' b o := by
+  simp only [mainStep, hpc, Option.some.injEq, Prod.mk.injEq] at h; obtain ⟨rfl, rfl⟩ := h
+  apply sim_stutter
+  · simp [abs, absPs, absPc, hpc]
+  · simp [needArmed]
+  · simp [pend, hpc]
+
+theorem sim_lock (T : Table) (f f' : FSys) (o : List Seq) (b : Bool) (hb : needArmed T f = true → b = true) (i : Inp)
+    (hpc : f.mpc = .stopped i) (h : mainStep T f = some (f', o)) : Sim T f f' b o := by
+  simp only [mainStep, hpc] at h
+  have hb' : f.armed.isSome = true → b = true := fun h => hb (by simp [needArmed, h])
+  split at h
+  · simp only [Option.some.injEq, Prod.mk.injEq] at h; obtain ⟨rfl, rfl⟩ := h
+    apply sim_stutter
+    · simp [abs, absPs, absPc, hpc]
+    · simpa [needArmed] using hb'
+    · simp [pend, hpc]
+  · cases h
+
+/-- What `Sys.outdate` does, on the abstraction, when the generation is bumped under the mutex. -/
+theorem abs_outdate (f : FSys) (hinv : FInv f) (hold : holdsMain f.mpc = true) :
+    nStale (f.escGen + 1) f.cbs = nStale f.escGen f.cbs + (if decide (0 < nFresh f.escGen f.cbs) = true then 1 else 0) ∧
+    nFresh (f.escGen + 1) f.cbs = 0 := by
+  have hc0 := main_no_crit hinv hold
+  obtain ⟨hst, hfr⟩ := outdate_count f.escGen f.cbs (fun c hc => (hinv.g1 c hc).1) (nCrit_zero hc0)
+  have hu1 := hinv.u1
+  refine ⟨?_, hfr⟩
+  rw [hst]
+  by_cases h : 0 < nFresh f.escGen f.cbs
+  · simp [h]; omega
+  · simp [h]; omega
+
+theorem sim_bump (T : Table) (hT : TimerOk T) (f f' : FSys) (o : List Seq) (b : Bool) (hinv : FInv f) (i : Inp)
+    (hpc : f.mpc = .locked i) (h : mainStep T f = some (f', o)) : Sim T f f' b o := by
+  simp only [mainStep, hpc, Option.some.injEq, Prod.mk.injEq] at h; obtain ⟨rfl, rfl⟩ := h
+  have hold : holdsMain f.mpc = true := by rw [hpc]; rfl
+  have hmid := main_no_mid hinv hold
+  have han := armed_none hinv (by rw [hpc]; rfl)
+  obtain ⟨hst, hfr⟩ := abs_outdate f hinv hold
+  cases i with
+  | rune r =>
+    cases hs : (VaxisModel.Model.Parser.step T f.ps (.rune r)).stop with
+    | true =>
+      apply sim_one T f _ b [] (.read r) false ((VaxisModel.Model.Parser.step T f.ps (.rune r)).out ++ [.eof])
+      · simp [Sys.step, abs, absPs, absPc, hpc, hmid, hs, finishing, Sys.outdate, stops, hst, hfr]
+      · simp [needArmed, han, arms, hT f.ps r hs]
+      · simp [pend, hpc, stops, hs]
+    | false =>
+      apply sim_one T f _ b [] (.read r) (startsTimer T r) (VaxisModel.Model.Parser.step T f.ps (.rune r)).out
+      · simp [Sys.step, abs, absPs, absPc, hpc, hmid, hs, Sys.outdate, stops, hst, hfr]
+      · simp [needArmed, han, arms]
+      · simp [pend, hpc, stops, hs]
+  | eof =>
+    apply sim_one T f _ b [] .readEnd false ((VaxisModel.Model.Parser.step T f.ps .eof).out ++ [.eof])
+    · simp [Sys.step, abs, absPs, absPc, hpc, hmid, finishing, Sys.outdate, stops, hst, hfr]
+    · simp [needArmed, han, arms]
+    · simp [pend, hpc, stops]
+
+theorem sim_anywhere (T : Table) (f f' : FSys) (o : List Seq) (b : Bool) (hb : needArmed T f = true → b = true)
+    (hinv : FInv f) (i : Inp) (hpc : f.mpc = .bumped i) (h : mainStep T f = some (f', o)) : Sim T f f' b o := by
+  simp only [mainStep, hpc, Option.some.injEq, Prod.mk.injEq] at h; obtain ⟨rfl, rfl⟩ := h
+  have hold : holdsMain f.mpc = true := by rw [hpc]; rfl
+  have hmid := main_no_mid hinv hold
+  have han := armed_none hinv (by rw [hpc]; rfl)
+  apply sim_stutter
+  · simp [abs, absPs, absPc, hpc, hmid]
+  · intro h
+    apply hb
+    simp only [needArmed, han, hpc] at h ⊢
+    split at h <;> simp_all
+  · cases hs : stops T f.ps i <;> simp [pend, hpc, hs]
+
+theorem sim_unlock (T : Table) (f f' : FSys) (o : List Seq) (b : Bool) (hb : needArmed T f = true → b = true)
+    (stop : Bool) (hpc : f.mpc = .stepped stop) (h : mainStep T f = some (f', o)) : Sim T f f' b o := by
+  simp only [mainStep, hpc, Option.some.injEq, Prod.mk.injEq] at h; obtain ⟨rfl, rfl⟩ := h
+  have hb' : f.armed.isSome = true → b = true := fun h => hb (by simp [needArmed, h])
+  apply sim_stutter
+  · cases stop <;> simp [abs, absPs, absPc, hpc]
+  · cases stop <;> simpa [needArmed] using hb'
+  · cases stop <;> simp [pend, hpc]
+
+theorem sim_fin (T : Table) (f f' : FSys) (o : List Seq) (b : Bool) (hb : needArmed T f = true → b = true)
+    (hinv : FInv f) (hcl : CInv f) (st : FinPc) (v : Bool) (hpc : f.mpc = .fin st v) (h : mainStep T f = some (f', o)) :
+    Sim T f f' b o := by
+  have hb' : f.armed.isSome = true → b = true := fun h => hb (by simp [needArmed, h])
+  cases st with
+  | stop =>
+    simp only [mainStep, hpc, Option.some.injEq, Prod.mk.injEq] at h; obtain ⟨rfl, rfl⟩ := h
+    apply sim_stutter
+    · cases v <;> simp [abs, absPs, absPc, hpc]
+    · simp [needArmed]
+    · cases v <;> simp [pend, hpc]
+  | lock =>
+    simp only [mainStep, hpc] at h
+    split at h
+    · simp only [Option.some.injEq, Prod.mk.injEq] at h; obtain ⟨rfl, rfl⟩ := h
+      apply sim_stutter
+      · cases v <;> simp [abs, absPs, absPc, hpc]
+      · simpa [needArmed] using hb'
+      · cases v <;> simp [pend, hpc]
+    · cases h
+  | bump =>
+    simp only [mainStep, hpc, Option.some.injEq, Prod.mk.injEq] at h; obtain ⟨rfl, rfl⟩ := h
+    have hold : holdsMain f.mpc = true := by rw [hpc]; rfl
+    have hmid := main_no_mid hinv hold
+    have han := armed_none hinv (by rw [hpc]; rfl)
+    obtain ⟨hst, hfr⟩ := abs_outdate f hinv hold
+    cases v with
+    | true =>
+      have hlt : ∀ c ∈ f.cbs, c.1 < f.escGen := fun c hc => (hinv.g1 c hc).2 (by rw [hpc]; rfl)
+      have hnf := nFresh_zero_of_lt hlt
+      apply sim_stutter
+      · simp [abs, absPs, absPc, hpc, hst, hfr, hnf]
+      · simp [needArmed, han]
+      · simp [pend, hpc]
+    | false =>
+      have hc := hcl _ hpc
+      apply sim_one T f _ b [] .breakClose false [.eof]
+      · simp [Sys.step, abs, absPs, absPc, hpc, hmid, hc, finishing, Sys.outdate, hst, hfr]
+      · simp [needArmed, han]
+      · simp [pend, hpc]
+  | unlock =>
+    simp only [mainStep, hpc, Option.some.injEq, Prod.mk.injEq] at h; obtain ⟨rfl, rfl⟩ := h
+    apply sim_stutter
+    · cases v <;> simp [abs, absPs, absPc, hpc]
+    · simpa [needArmed] using hb'
+    · cases v <;> simp [pend, hpc]
+  | emit =>
+    simp only [mainStep, hpc, Option.some.injEq, Prod.mk.injEq] at h; obtain ⟨rfl, rfl⟩ := h
+    apply sim_stutter
+    · cases v <;> simp [abs, absPs, absPc, hpc]
+    · simpa [needArmed] using hb'
+    · cases v <;> simp [pend, hpc]
+  | close =>
+    simp only [mainStep, hpc, Option.some.injEq, Prod.mk.injEq] at h; obtain ⟨rfl, rfl⟩ := h
+    apply sim_stutter
+    · cases v <;> simp [abs, absPs, absPc, hpc]
+    · simpa [needArmed] using hb'
+    · cases v <;> simp [pend, hpc]
+
+theorem sim_main (T : Table) (hT : TimerOk T) (f f' : FSys) (o : List Seq) (b : Bool)
+    (hb : needArmed T f = true → b = true) (hinv : FInv f) (hcl : CInv f) (h : mainStep T f = some (f', o)) :
+    Sim T f f' b o := by
+  cases hpc : f.mpc with
+  | atSelect => exact sim_select T f f' o b hb hpc h
+  | inRead => simp [mainStep, hpc] at h
+  | readDone i => exact sim_stop T f f' o b i hpc h
+  | stopped i => exact sim_lock T f f' o b hb i hpc h
+  | locked i => exact sim_bump T hT f f' o b hinv i hpc h
+  | bumped i => exact sim_anywhere T f f' o b hb hinv i hpc h
+  | stepped stop => exact sim_unlock T f f' o b hb stop hpc h
+  | fin st v => exact sim_fin T f f' o b hb hinv hcl st v hpc h
+  | done => simp [mainStep, hpc] at h
+
+theorem not_bumped_of_armedOk {pc : MPc} (h : armedOk pc = true) : ∀ i, pc ≠ .bumped i := by
+  intro i hi; subst hi; cases h
+
+theorem sim_expire (T : Table) (f : FSys) (b : Bool) (hb : needArmed T f = true → b = true) (hinv : FInv f)
+    (g : Nat) (ha : f.armed = some g) :
+    Sim T f { f with armed := none, cbs := f.cbs ++ [(g, .started)] } b [] := by
+  obtain ⟨hg, hok⟩ := hinv.g2 g ha
+  have hbt : b = true := hb (by simp [needArmed, ha])
+  have hnb := not_bumped_of_armedOk hok
+  have hps : ∀ l, absPs T { f with armed := none, cbs := l } = if 0 < nMid l then timerReset true f.ps else f.ps := by
+    intro l; cases hpc : f.mpc <;> simp_all [absPs]
+  have hps0 : absPs T f = if 0 < nMid f.cbs then timerReset true f.ps else f.ps := by
+    cases hpc : f.mpc <;> simp_all [absPs]
+  have hpcE : absPc T { f with armed := none, cbs := f.cbs ++ [(g, .started)] } = absPc T f := by
+    cases hpc : f.mpc <;> simp_all [absPc]
+  have hpend : pend T { f with armed := none, cbs := f.cbs ++ [(g, .started)] } = pend T f := by
+    cases hpc : f.mpc <;> simp_all [pend]
+  have hn1 : nMid (f.cbs ++ [(g, .started)]) = nMid f.cbs := by simp [nMid, List.countP_append, mid]
+  have hn2 : nStale f.escGen (f.cbs ++ [(g, .started)]) = nStale f.escGen f.cbs := by
+    simp [nStale, List.countP_append, hg]
+  have hn3 : 0 < nFresh f.escGen (f.cbs ++ [(g, .started)]) := by
+    simp [nFresh, List.countP_append, hg, pre3]
+  apply sim_one T f _ b [] .timerExpire false []
+  · simp only [Sys.step, abs, hbt, if_true, Option.some.injEq, Prod.mk.injEq, and_true]
+    rw [hps, hps0, hpcE, hn1, hn2]
+    simp [hn3]
+  · have : ∀ i, f.mpc ≠ .bumped i := hnb
+    cases hpc : f.mpc <;> simp_all [needArmed]
+  · rw [hpend]; simp
+
+/-! callbacks: while a callback can move, the main goroutine is not between its Lock and Unlock -/
+
+def absPcNB : MPc → Pc
+  | .atSelect => .atSelect
+  | .inRead | .readDone _ | .stopped _ | .locked _ => .inRead
+  | .bumped _ => .done
+  | .stepped stop => if stop then .done else .atSelect
+  | .fin st v => if v then .done else (match st with | .stop | .lock | .bump => .atSelect | _ => .done)
+  | .done => .done
+
+def pendNB : MPc → List Seq
+  | .stepped true => [.eof]
+  | .fin .stop true | .fin .lock true | .fin .bump true | .fin .unlock _ | .fin .emit _ => [.eof]
+  | _ => []
+
+theorem abs_nb (T : Table) (f : FSys) (b : Bool) (h : holdsMain f.mpc = false) :
+    abs T f b = ⟨if 0 < nMid f.cbs then timerReset true f.ps else f.ps, absPcNB f.mpc, b, f.closeReq,
+      decide (absPcNB f.mpc = .done), decide (0 < nFresh f.escGen f.cbs), nStale f.escGen f.cbs⟩ ∧
+    pend T f = pendNB f.mpc ∧ needArmed T f = f.armed.isSome := by
+  cases hpc : f.mpc <;> simp_all [abs, absPs, absPc, absPcNB, pend, pendNB, needArmed, holdsMain]
+  all_goals (rename_i st v; cases st <;> cases v <;> simp_all)
+
+/-- Outside the strict places nothing is pending. -/
+theorem pendNB_nil {pc : MPc} (h1 : strict pc = false) : pendNB pc = [] := by
+  cases pc with
+  | stepped b => cases b <;> simp_all [strict, pendNB]
+  | fin st v => cases st <;> cases v <;> simp_all [strict, pendNB]
+  | _ => simp_all [strict, pendNB]
+
+theorem timerReset_idem (ps : PState) (h1 : ps.state = .ground) (h2 : ps.ignoreST = false) :
+    timerReset true ps = ps := by
+  cases ps; simp_all [timerReset]
+
+/-- A callback statement that leaves the three counters and the (abstract) parser state alone. -/
+theorem sim_cb_stutter (T : Table) (f : FSys) (b : Bool) (hb : needArmed T f = true → b = true)
+    (hnh : holdsMain f.mpc = false) (ps' : PState) (m' : Option Owner) (l' : Cbs)
+    (h1 : nFresh f.escGen l' = nFresh f.escGen f.cbs) (h2 : nStale f.escGen l' = nStale f.escGen f.cbs)
+    (h3 : (if 0 < nMid l' then timerReset true ps' else ps') = (if 0 < nMid f.cbs then timerReset true f.ps else f.ps)) :
+    Sim T f { f with ps := ps', mutex := m', cbs := l' } b [] := by
+  obtain ⟨e1, e2, e3⟩ := abs_nb T f b hnh
+  obtain ⟨e1', e2', e3'⟩ := abs_nb T { f with ps := ps', mutex := m', cbs := l' } b hnh
+  apply sim_stutter
+  · rw [e1, e1']; simp only [h1, h2, h3]
+  · rw [e3']; rw [e3] at hb; exact hb
+  · rw [e2, e2']; simp
+
+theorem sim_cb (T : Table) (f f' : FSys) (o : List Seq) (i : Nat) (b : Bool) (hb : needArmed T f = true → b = true)
+    (hinv : FInv f) (h : cbStep f i = some (f', o)) : Sim T f f' b o := by
+  unfold cbStep at h
+  split at h
+  · cases h
+  · rename_i g pc hi
+    have hmem : (g, pc) ∈ f.cbs := List.mem_of_getElem? hi
+    cases pc with
+    | started =>
+      simp only at h
+      split at h
+      · rename_i hm
+        simp only [Option.some.injEq, Prod.mk.injEq] at h; obtain ⟨rfl, rfl⟩ := h
+        have hnh : holdsMain f.mpc = false := by
+          cases hh : holdsMain f.mpc with
+          | false => rfl
+          | true => have := hinv.m1.mpr hh; rw [hm] at this; cases this
+        have s1 := nFresh_set f.escGen f.cbs i g _ .locked hi
+        have s2 := nStale_set f.escGen f.cbs i g _ .locked hi
+        have s3 := nMid_set f.cbs i g _ .locked hi
+        simp only [pre3, pre2, mid] at s1 s2 s3
+        have := sim_cb_stutter T f b hb hnh f.ps (some .cb) (f.cbs.set i (g, .locked)) (by omega) (by omega)
+          (by rw [show nMid (f.cbs.set i (g, .locked)) = nMid f.cbs by omega])
+        simpa using this
+      · cases h
+    | locked =>
+      simp only [Option.some.injEq, Prod.mk.injEq] at h; obtain ⟨rfl, rfl⟩ := h
+      obtain ⟨hm, hnh, hn1⟩ := cb_excl f hinv i g _ hi rfl
+      by_cases hge : g = f.escGen
+      · subst hge
+        have s1 := nFresh_set f.escGen f.cbs i f.escGen _ .passed hi
+        have s2 := nStale_set f.escGen f.cbs i f.escGen _ .passed hi
+        have s3 := nMid_set f.cbs i f.escGen _ .passed hi
+        simp [pre3, pre2, mid] at s1 s2 s3
+        have := sim_cb_stutter T f b hb hnh f.ps f.mutex (f.cbs.set i (f.escGen, .passed)) (by omega) (by omega)
+          (by rw [show nMid (f.cbs.set i (f.escGen, .passed)) = nMid f.cbs by omega])
+        simpa using this
+      · have s1 := nFresh_set f.escGen f.cbs i g _ .failed hi
+        have s2 := nStale_set f.escGen f.cbs i g _ .failed hi
+        have s3 := nMid_set f.cbs i g _ .failed hi
+        simp [pre3, pre2, mid, hge] at s1 s2 s3
+        obtain ⟨e1, e2, e3⟩ := abs_nb T f b hnh
+        obtain ⟨e1', e2', e3'⟩ := abs_nb T { f with cbs := f.cbs.set i (g, .failed) } b hnh
+        simp only [hge, if_false]
+        apply sim_one T f _ b [] (.cbRun false) b []
+        · rw [e1, e1']
+          simp only [Sys.step, Cfg.fixed, if_true]
+          rw [if_pos (by omega)]
+          simp only [Option.some.injEq, Prod.mk.injEq, and_true]
+          rw [s1, s3, ← s2]; simp
+        · rw [e3']; rw [e3] at hb; exact hb
+        · rw [e2, e2']; simp
+    | passed =>
+      simp only [Option.some.injEq, Prod.mk.injEq] at h; obtain ⟨rfl, rfl⟩ := h
+      obtain ⟨hm, hnh, hn1⟩ := cb_excl f hinv i g _ hi rfl
+      have hge : g = f.escGen := hinv.p1 _ hmem rfl
+      subst hge
+      have hns : strict f.mpc = false := by
+        cases hs : strict f.mpc with
+        | false => rfl
+        | true => have := (hinv.g1 _ hmem).2 hs; simp only at this; omega
+      have hcc : f.chanClosed = false := by
+        cases hc : f.chanClosed with
+        | false => rfl
+        | true => have := hinv.c1 hc; rw [this] at hns; cases hns
+      have s1 := nFresh_set f.escGen f.cbs i f.escGen _ .emitted hi
+      have s2 := nStale_set f.escGen f.cbs i f.escGen _ .emitted hi
+      have s3 := nMid_set f.cbs i f.escGen _ .emitted hi
+      have s4 := nCrit_set f.cbs i f.escGen _ .gone hi
+      have s5 := nMid_set f.cbs i f.escGen _ .gone hi
+      have s6 := nMid_le_nCrit (f.cbs.set i (f.escGen, .gone))
+      have hu1 := hinv.u1
+      simp [pre3, pre2, mid, crit] at s1 s2 s3 s4 s5
+      have hmid0 : nMid f.cbs = 0 := by omega
+      obtain ⟨e1, e2, e3⟩ := abs_nb T f b hnh
+      obtain ⟨e1', e2', e3'⟩ := abs_nb T { f with cbs := f.cbs.set i (f.escGen, .emitted) } b hnh
+      have hout : (if f.chanClosed = true then Seq.panic else Seq.c0 0x1B) = Seq.c0 0x1B := by simp [hcc]
+      rw [hout]
+      apply sim_one T f _ b [.c0 0x1B] (.cbRun true) b [.c0 0x1B]
+      · rw [e1, e1']
+        simp only [Sys.step, Cfg.fixed]
+        rw [if_pos (by simp; omega)]
+        simp only [Option.some.injEq, Prod.mk.injEq]
+        rw [s3, s2, hmid0, show nFresh f.escGen (f.cbs.set i (f.escGen, .emitted)) = 0 by omega]
+        simp
+      · rw [e3']; rw [e3] at hb; exact hb
+      · rw [e2, e2']; simp [pendNB_nil hns]
+    | emitted =>
+      simp only [Option.some.injEq, Prod.mk.injEq] at h; obtain ⟨rfl, rfl⟩ := h
+      obtain ⟨hm, hnh, hn1⟩ := cb_excl f hinv i g _ hi rfl
+      have s1 := nFresh_set f.escGen f.cbs i g _ .stateSet hi
+      have s2 := nStale_set f.escGen f.cbs i g _ .stateSet hi
+      have s3 := nMid_set f.cbs i g _ .stateSet hi
+      simp [pre3, pre2, mid] at s1 s2 s3
+      have hpos : 0 < nMid f.cbs := List.countP_pos_iff.mpr ⟨_, hmem, rfl⟩
+      have := sim_cb_stutter T f b hb hnh { f.ps with state := .ground } f.mutex (f.cbs.set i (g, .stateSet)) s1 s2
+        (by rw [s3]; simp [hpos, timerReset])
+      simpa using this
+    | stateSet =>
+      simp only [Option.some.injEq, Prod.mk.injEq] at h; obtain ⟨rfl, rfl⟩ := h
+      obtain ⟨hm, hnh, hn1⟩ := cb_excl f hinv i g _ hi rfl
+      have s1 := nFresh_set f.escGen f.cbs i g _ .stSet hi
+      have s2 := nStale_set f.escGen f.cbs i g _ .stSet hi
+      have s3 := nMid_set f.cbs i g _ .stSet hi
+      simp [pre3, pre2, mid] at s1 s2 s3
+      have hpos : 0 < nMid f.cbs := List.countP_pos_iff.mpr ⟨_, hmem, rfl⟩
+      have := sim_cb_stutter T f b hb hnh { f.ps with ignoreST := false } f.mutex (f.cbs.set i (g, .stSet)) s1 s2
+        (by rw [s3]; simp [hpos, timerReset])
+      simpa using this
+    | stSet =>
+      simp only [Option.some.injEq, Prod.mk.injEq] at h; obtain ⟨rfl, rfl⟩ := h
+      obtain ⟨hm, hnh, hn1⟩ := cb_excl f hinv i g _ hi rfl
+      have s1 := nFresh_set f.escGen f.cbs i g _ .gone hi
+      have s2 := nStale_set f.escGen f.cbs i g _ .gone hi
+      have s3 := nMid_set f.cbs i g _ .gone hi
+      have s4 := nCrit_set f.cbs i g _ .gone hi
+      have s6 := nMid_le_nCrit (f.cbs.set i (g, .gone))
+      simp [pre3, pre2, mid, crit] at s1 s2 s3 s4
+      have hpos : 0 < nMid f.cbs := List.countP_pos_iff.mpr ⟨_, hmem, rfl⟩
+      have hp2 := (hinv.p2 _ hmem).2 rfl
+      have := sim_cb_stutter T f b hb hnh f.ps none (f.cbs.set i (g, .gone)) s1 s2
+        (by rw [show nMid (f.cbs.set i (g, .gone)) = 0 by omega]; simp [hpos, timerReset_idem f.ps hp2.1 hp2.2])
+      simpa using this
+    | failed =>
+      simp only [Option.some.injEq, Prod.mk.injEq] at h; obtain ⟨rfl, rfl⟩ := h
+      obtain ⟨hm, hnh, hn1⟩ := cb_excl f hinv i g _ hi rfl
+      have s1 := nFresh_set f.escGen f.cbs i g _ .gone hi
+      have s2 := nStale_set f.escGen f.cbs i g _ .gone hi
+      have s3 := nMid_set f.cbs i g _ .gone hi
+      simp [pre3, pre2, mid] at s1 s2 s3
+      have := sim_cb_stutter T f b hb hnh f.ps none (f.cbs.set i (g, .gone)) s1 s2 (by rw [s3])
+      simpa using this
+    | gone => cases h
+
+/-- **One statement of the statement-grained system is zero or one step of the atomic system.** -/
+theorem sim_step (T : Table) (hT : TimerOk T) (f f' : FSys) (l : FLabel) (o : List Seq) (b : Bool)
+    (hb : needArmed T f = true → b = true) (hinv : FInv f) (hcl : CInv f)
+    (h : FSys.step T f l = some (f', o)) : Sim T f f' b o := by
+  cases l with
+  | closeSig =>
+    simp only [FSys.step, Option.some.injEq, Prod.mk.injEq] at h; obtain ⟨rfl, rfl⟩ := h
+    apply sim_one T f _ b [] .closeSig b []
+    · cases hpc : f.mpc <;> simp [Sys.step, abs, absPs, absPc, hpc]
+    · cases hpc : f.mpc <;> simpa [needArmed, hpc] using hb
+    · cases hpc : f.mpc <;> simp [pend, hpc]
+  | readRet i =>
+    simp only [FSys.step] at h
+    split at h
+    · rename_i hpc
+      simp only [Option.some.injEq, Prod.mk.injEq] at h; obtain ⟨rfl, rfl⟩ := h
+      apply sim_stutter
+      · simp [abs, absPs, absPc, hpc]
+      · simpa [needArmed, hpc] using hb
+      · simp [pend, hpc]
+    · cases h
+  | main => exact sim_main T hT f f' o b hb hinv hcl h
+  | expire =>
+    simp only [FSys.step] at h
+    split at h
+    · rename_i g ha
+      simp only [Option.some.injEq, Prod.mk.injEq] at h; obtain ⟨rfl, rfl⟩ := h
+      exact sim_expire T f b hb hinv g ha
+    · cases h
+  | cb i => exact sim_cb T f f' o i b hb hinv h
+
+theorem run_append (T : Table) (c : Cfg) (ls1 ls2 : List Label) (s s1 s2 : Sys) (o1 o2 : List Seq)
+    (h1 : Sys.run T c s ls1 = some (s1, o1)) (h2 : Sys.run T c s1 ls2 = some (s2, o2)) :
+    Sys.run T c s (ls1 ++ ls2) = some (s2, o1 ++ o2) := by
+  induction ls1 generalizing s o1 with
+  | nil =>
+    simp only [Sys.run, Option.some.injEq, Prod.mk.injEq] at h1; obtain ⟨rfl, rfl⟩ := h1
+    simpa using h2
+  | cons l ls ih =>
+    simp only [Sys.run] at h1
+    cases hs : Sys.step T c s l with
+    | none => simp [hs] at h1
+    | some r =>
+      obtain ⟨s', o'⟩ := r
+      simp only [hs] at h1
+      cases hr : Sys.run T c s' ls with
+      | none => simp [hr] at h1
+      | some r2 =>
+        obtain ⟨s'', o''⟩ := r2
+        simp only [hr, Option.some.injEq, Prod.mk.injEq] at h1; obtain ⟨rfl, rfl⟩ := h1
+        have := ih s' o'' hr
+        simp [Sys.run, hs, this, List.append_assoc]
+
+/-- **Refinement.**  Every run of the statement-grained system from a state satisfying the invariants is
+    matched by a run of the atomic system between the corresponding abstract states, with the same
+    output up to what the atomic system has emitted ahead (`pend`). -/
+theorem run_sim (T : Table) (hT : TimerOk T) (fls : List FLabel) (f f' : FSys) (o : List Seq) (b : Bool)
+    (hb : needArmed T f = true → b = true) (hinv : FInv f) (hcl : CInv f)
+    (h : FSys.run T f fls = some (f', o)) :
+    ∃ ls b' o', Sys.run T Cfg.fixed (abs T f b) ls = some (abs T f' b', o') ∧
+      (needArmed T f' = true → b' = true) ∧ pend T f ++ o' = o ++ pend T f' := by
+  induction fls generalizing f o b with
+  | nil =>
+    simp only [FSys.run, Option.some.injEq, Prod.mk.injEq] at h; obtain ⟨rfl, rfl⟩ := h
+    exact ⟨[], b, [], rfl, hb, by simp⟩
+  | cons l fls ih =>
+    simp only [FSys.run] at h
+    cases h1 : FSys.step T f l with
+    | none => simp [h1] at h
+    | some r1 =>
+      obtain ⟨f1, o1⟩ := r1
+      simp only [h1] at h
+      cases h2 : FSys.run T f1 fls with
+      | none => simp [h2] at h
+      | some r2 =>
+        obtain ⟨f2, o2⟩ := r2
+        simp only [h2, Option.some.injEq, Prod.mk.injEq] at h
+        obtain ⟨rfl, rfl⟩ := h
+        obtain ⟨ls1, b1, oa1, hr1, hb1, hp1⟩ := sim_step T hT f f1 l o1 b hb hinv hcl h1
+        obtain ⟨ls2, b2, oa2, hr2, hb2, hp2⟩ := ih f1 o2 b1 hb1 (step_inv T hT f f1 l o1 hinv h1)
+          (step_CInv T f f1 l o1 hcl h1) h2
+        refine ⟨ls1 ++ ls2, b2, oa1 ++ oa2, run_append T _ ls1 ls2 _ _ _ _ _ hr1 hr2, hb2, ?_⟩
+        rw [← List.append_assoc, hp1, List.append_assoc, hp2, List.append_assoc]
+
+theorem abs_init (T : Table) : abs T FSys.init false = Sys.init := by
+  simp [abs, absPs, absPc, FSys.init, Sys.init, nMid, nFresh, nStale]
+
 end VaxisModel.Lemmas.ParserRunFine
